@@ -24,6 +24,7 @@ from vlib import monitors
 
 PROP = 'C09'
 TITLE = 'METAL = inlining'
+DEBUG_SHARDS = True      # two of sixteen shards run the library in its debug mode (vlib/runner.py)
 LEVEL = 'exploration'
 SHARDS = {'quick': 16, 'thorough': 16}
 FLOOR = {'quick': 800, 'thorough': 10000}
